@@ -1,22 +1,19 @@
 """C19 (first half) - decoding the escape-coded output of styled text printed in truecolor gives the
 same characters and, per character, the same attributes, colours and links: the output is
-interpreted twice - by rich.ansi.AnsiDecoder and, tokenised, by TLC with Sgr.tla - and TLC
-compares cell by cell (Trace_Sgr, clause "decoder:")."""
+interpreted twice - by rich.ansi.AnsiDecoder (decode_line per line, or decode of the whole output) and,
+tokenised, by TLC with Sgr.tla - and TLC compares cell by cell (Trace_Sgr, clause "decoder:").
+The styled texts are C03's (drivers/c03.py: every construction route of a style, every way of writing it)."""
 from drivers import c03
 
 
 def decoder_part(chk):
     if chk.replay_only:
-        segs, cfgs = c03.rebuild(chk.replay_only["case"])
-        links, recs, meta = {}, [], []
-        for i, cfg in enumerate(cfgs):
-            rec, out = c03.print_case(segs, cfg, links)
-            recs.append(rec)
-            meta.append((segs, cfgs, i))
-        c03.judge(chk, recs, meta, "M3-decoder", prefix="decoder")
+        case = c03.upgrade(chk.replay_only["case"])
+        recs = c03.run_case(case)
+        c03.judge(chk, recs, [(case, i) for i in range(len(recs))], "M3-decoder", prefix="decoder")
         return
     recs, meta = c03.run_cases(chk, chk.pick(2500, 40000), only_decoder=True)
     c03.judge(chk, recs, meta, "M3-decoder", prefix="decoder")
     if recs:
-        segs, cfgs, i = meta[-1]
-        chk.sample(dict(part="decoder", case=c03.describe(segs, cfgs), decoded_cells=recs[-1]["dec"][:6]))
+        case, i = meta[-1]
+        chk.sample(dict(part="decoder", case=c03.describe(case, i), decoded_cells=recs[-1]["dec"][:6]))
